@@ -135,6 +135,15 @@ def check(fb, ctx):
             sty = m.get("sty") or ""
             if "std::option::Option<" not in sty:
                 continue
+            # a running `let mut seen: Option<_> = None;` of the function is state, not decoded content
+            state_ids = hirq.let_ids(h["body"], lambda z: (hirq.ctor_name(z) or "").endswith("::None"))
+            sc_ = m.get("scrut")
+            while isinstance(sc_, dict) and sc_.get("k") in ("addr", "use", "paren") :
+                sc_ = sc_.get("e")
+            if isinstance(sc_, dict) and sc_.get("k") == "mcall" and sc_.get("name") in ("as_ref", "as_mut", "take") and not sc_.get("args"):
+                sc_ = sc_.get("recv")
+            if hirq.is_lid(sc_, state_ids):
+                continue
             for arm in m["arms"]:
                 cells = hirq.tuple_cells(arm["pat"])
                 vs = hirq.pat_variants(arm["pat"]) if cells is None else set().union(*cells)
